@@ -16,12 +16,16 @@ func init() {
 
 func runC11(r *engine.Run) {
 	r.Rule("DOM-save", "in commit each arm of a kind that can be saved (branch, shared-prefix, value) calls Save(batcher) on the node before every success return of that arm, and descends into its dirty children first (branch: loop over all 16 slots; shared-prefix: its value); Commit saves the root likewise")
+	r.Rule("DOM-created", "in commit every node put into the batch is also reported on the created channel (and its previous hash, when different, on the deleted channel) on every success path of its arm, including the collapse-level paths: the created report is what cancels a pending delete of the same hash and what a rollback removes")
+	r.Rule("ORDER-survivor", "see C09: the hash of a node that stays in the trie is never scheduled for deletion")
 	r.Rule("WHO-nodelete", "no function reachable from Commit calls Batcher.Delete or StorageAdapter.Delete: a crash before the caller commits the batch cannot have removed anything")
 	r.Rule("ORDER-stage", "in DeleteNodes the keys handed to Delete derive only from the `deleted` set; the staged set (tempDeleted) is moved into `deleted` only after that batch and after `deleted` was cleared (two-phase deletion)")
 	r.Rule("AGREE-purge", "every trie field from which DeleteNodes (now or at a later pass) feeds storage deletes is purged of a hash that a commit re-creates: the created-hash handler must remove the hash from `deleted` and from `tempDeleted`")
 	r.Rule("WHO-dirtyclear", "the dirty flag doubles as 'not saved yet' for Commit, so stores of dirty=false may be reachable only from entry points that save the node (Commit) or that work on freshly decoded nodes (Deserialize, VerifyBlockProof), not from read-only entry points")
 	r.NotDec = append(r.NotDec, "that a reopened trie is observationally identical (value-level)", "atomicity of the storage engine's batches (the atomic unit by the property's quantifier)")
 	domSave(r)
+	domCreated(r, "DOM-created")
+	orderSurvivor(r, "ORDER-survivor")
 	whoNoDelete(r)
 	orderStage(r)
 	agreePurge(r)
@@ -332,5 +336,72 @@ func whoDirtyClear(r *engine.Run) {
 		}
 		r.Fail(rule, fn(e)+"|clears dirty", r.P.Pos(e.Pos()),
 			"a read-only entry point clears the dirty flag that Commit uses as 'not saved yet' (via "+strings.Join(g.PathTo(e, hit), " -> ")+"): calling it before Commit makes Commit skip the unsaved nodes, so the committed root cannot be reopened")
+	}
+}
+
+// domCreated: Save(batcher) implies a created-channel send on every success path.
+func domCreated(r *engine.Run, rule string) {
+	f := wfn(r, rule, "commit")
+	if f == nil {
+		return
+	}
+	var createdCh ssa.Value
+	for _, p := range f.Params {
+		if p.Name() == "createdChan" {
+			createdCh = p
+		}
+	}
+	if createdCh == nil {
+		r.Anchor(rule, fmt.Errorf("unresolved anchor: created channel of %s", fn(f)))
+		return
+	}
+	arms := typeArms(f, f.Params[1])
+	n := 0
+	for _, kind := range []string{"routingNode", "shortNode", "valueNode"} {
+		arm := arms[kind]
+		if arm == nil {
+			continue
+		}
+		var save *ssa.Call
+		var sends []*ssa.Send
+		for b := range arm.blocks {
+			for _, in := range b.Instrs {
+				switch x := in.(type) {
+				case *ssa.Call:
+					if recv, ok := engine.IsMethodCall(x, "Save"); ok && recv == arm.asserted {
+						save = x
+					}
+				case *ssa.Send:
+					if x.Chan == createdCh {
+						if hc, ok := x.X.(*ssa.Call); ok {
+							if recv, ok := engine.IsMethodCall(hc, "Hash"); ok && recv == arm.asserted {
+								sends = append(sends, x)
+							}
+						}
+					}
+				}
+			}
+		}
+		if save == nil {
+			continue
+		}
+		o := ord{}
+		for _, ret := range engine.Returns(f) {
+			if !arm.blocks[ret.Block()] || len(ret.Results) != 2 || !nilConst(ret.Results[1]) || !engine.InstrDominates(save, ret) {
+				continue
+			}
+			n++
+			good := false
+			for _, sd := range sends {
+				if engine.InstrDominates(sd, ret) && engine.InstrDominates(save, sd) {
+					good = true
+				}
+			}
+			r.Check(good, rule, o.next(fn(f)+"|*"+kind+" arm success"), r.P.Pos(ret.Pos()), "saved node reported as created before the return",
+				"a node is put into the batch but not reported as created on this path (collapse-level shortcut?): a pending delete of the same hash is not cancelled (garbage collection removes the live node) and a rollback leaves the node in storage")
+		}
+	}
+	if n < 4 {
+		r.Anchor(rule, fmt.Errorf("unresolved anchor: %d save-then-return paths in commit, 4 confirmed by reading", n))
 	}
 }
